@@ -105,6 +105,10 @@ fn supply_roms(e: &mut Emu, m128: bool, rom_seeds: Option<(usize, usize)>, lines
 fn fresh(m128: bool, rom_seeds: Option<(usize, usize)>, lines: &mut Vec<String>) -> Machine {
     let mut c = Cfg::new(m128);
     c.fastload = true;
+    // input-only peripherals on some machines: they answer reads, a write to one of their addresses is still a
+    // write to whatever else decodes there (the paging latch's partial decoding among them)
+    c.kempston = rom_seeds.map_or(false, |(a, _)| a % 2 == 1);
+    c.mouse = rom_seeds.map_or(false, |(_, b)| b % 3 == 0);
     let mut e = emu(&c);
     e.set_debug_interface(Dbg { break_all: true, ..Default::default() });
     lines.push(format!("new {}", if m128 { 128 } else { 48 }));
